@@ -7,8 +7,9 @@ PROP = "C09"
 def run(tier, seed, t0):
     return _sess.run_session_check(
         PROP, tier, seed, t0,
-        families=[("chanclose", 500, 8000), ("chclose_cross", 150, 3000), ("mixed", 150, 2000)],
-        own_kinds=('chanclose', 'chclose-cross'),
+        families=[("chanclose", 500, 8000), ("chclose_cross", 150, 3000), ("midframe_close", 60, 1000),
+                  ("mixed", 150, 2000)],
+        own_kinds=('chanclose', 'chclose-cross', 'backlog-midframe'),
         mc_jobs=[("MC_Conn_chclose_q.cfg", None, None), ("MC_Conn_chclose_bug.cfg", "ChanCloseScoped", None),
                  ("MC_Conn_close.cfg", None, "thorough")],
         rule="2-3 open channels in seeded states (idle, call in flight with the reply withheld, content half received, "
@@ -16,7 +17,9 @@ def run(tier, seed, t0):
              "texts); then further calls on the closed channel (sticky error), synchronous calls on every other channel, "
              "re-opening the same id explicitly and using it, consumer drains, clean connection close; plus close "
              "crossings (the client's own Close of that channel is in flight when the server closes it, the server then "
-             "acknowledges the client's Close too, in the same burst or later, or not at all). non-trivial = "
+             "acknowledges the client's Close too, in the same burst or later, or not at all); plus closes that arrive "
+             "while the transport is stalled in the middle of another channel's frame (the CloseOk may only follow whole "
+             "frames). non-trivial = "
              "the closed channel had a consumer, a call in flight or half-received content; distinct = distinct step lists",
         nontrivial=lambda s: any(x.get("do") == "consume" or x.get("async") for x in s["steps"]),
         assumptions=_sess.COMMON_ASSUMPTIONS + [
